@@ -254,10 +254,18 @@ Definition top_type (c : chain) : string :=
   | [] => "null"
   end.
 
+(* validateSchemaType rejects an unknown value whose schema is Never WITHOUT reporting (eval_validate.go:191-193:
+   `if x.Never { return false }`, reached from validateElement:433-435 for every unknown value, at the top of a typed
+   argument, as an element of a known array (validateArray:622-631) and as a property of a known object
+   (validateObject:650-663), and from validateSchemaArray:329-337 for the prefix items of an unknown array);
+   evaluateTypedExpr's fallback (eval.go:565) does not fire for values containing unknowns *)
+Definition silent_never (c : chain) : bool :=
+  match c with l :: _ => l_unk l && sch_is_never (top_sch c) | [] => false end.
+
 (* returns (ok, number of diagnostics) *)
 Definition validate (a : accept) (c : chain) : bool * N :=
   match a with
-  | AccString => if top_is_string c then (true, 0) else (false, 1)
+  | AccString => if top_is_string c then (true, 0) else (false, if silent_never c then 0 else 1)
   | AccArrString =>
       match c with
       | l :: _ =>
@@ -266,13 +274,14 @@ Definition validate (a : accept) (c : chain) : bool * N :=
              | ScAlways => (true, 0)
              | ScArray prefix items =>
                  let bad := filter (fun s => negb (sch_is_type sch_fuel "string" s)) (prefix ++ match items with Some ScNever | None => [] | Some i => [i] end) in
-                 (match bad with [] => true | _ => false end, N.of_nat (length bad))
+                 (match bad with [] => true | _ => false end, N.of_nat (length (filter (fun s => negb (sch_is_never s)) bad)))
+             | ScNever => (false, 0)
              | _ => (false, 1)
              end)
           else match l with
                | LArr _ _ _ elems =>
                    let bad := filter (fun e => negb (top_is_string e)) elems in
-                   (match bad with [] => true | _ => false end, N.of_nat (length bad))
+                   (match bad with [] => true | _ => false end, N.of_nat (length (filter (fun e => negb (silent_never e)) bad)))
                | _ => (false, 1)
                end
       | [] => (false, 1)
@@ -282,7 +291,7 @@ Definition validate (a : accept) (c : chain) : bool * N :=
       match c with
       | l :: _ =>
           if l_unk l then
-            (match top_sch c with ScAlways => (true, 0) | ScObject _ _ => (true, 0) | _ => (false, 1) end)
+            (match top_sch c with ScAlways => (true, 0) | ScObject _ _ => (true, 0) | ScNever => (false, 0) | _ => (false, 1) end)
           else match l with
                | LObj _ _ _ _ =>
                    let ks := keys c in
@@ -298,7 +307,7 @@ Definition validate (a : accept) (c : chain) : bool * N :=
                    (* extra keys of a closed record are rejected by the `false` subschema, which reports nothing itself;
                       evaluateTypedExpr then reports once if nothing else was reported and the value has no unknowns *)
                    let ok := Nat.eqb (length missing + length extra + length badty) 0 in
-                   let n := (length missing + length badty)%nat in
+                   let n := (length missing + length (filter (fun p => negb (silent_never (property (fst p) c))) badty))%nat in
                    (ok, if negb ok && Nat.eqb n 0 then (if contains_unknowns c then 0 else 1) else N.of_nat n)
                | _ => (false, 1)
                end
